@@ -11,6 +11,7 @@ import (
 	"os"
 	"os/exec"
 	"path/filepath"
+	"runtime"
 	"sort"
 	"strconv"
 	"strings"
@@ -90,7 +91,12 @@ func (c *CaseCtx) Log(format string, a ...interface{}) {
 	s := fmt.Sprintf(format, a...)
 	c.hist = append(c.hist, s)
 	c.fp.add(s)
+	if traceOn {
+		fmt.Fprintln(os.Stderr, "TRACE", firstN(s, 400))
+	}
 }
+
+var traceOn = os.Getenv("VERIF_TRACE") != ""
 
 // Note adds to the history without influencing the fingerprint.
 func (c *CaseCtx) Note(format string, a ...interface{}) {
@@ -122,16 +128,17 @@ func (c *CaseCtx) Sample(v interface{}) { c.res.Sample = v }
 func (c *CaseCtx) Dir(name string) string { return filepath.Join(c.Scratch, name) }
 
 type Check struct {
-	ID          string
-	Level       string // exploration | fault_enumeration
-	NCases      func(tier string) int
-	Run         func(c *CaseCtx)
-	Rule        string
-	Assumptions []string
-	Workers     int                                          // 0 => 16
-	CaseTimeout time.Duration                                // watchdog per worker (whole shard); 0 => default
-	Floor       func(tier string, agg map[string]int64) string // coverage floor: non-empty => harness error
-	Post        func(d *driverState)                         // optional extra aggregation (race logs ...)
+	ID           string
+	Level        string // exploration | fault_enumeration
+	NCases       func(tier string) int
+	Run          func(c *CaseCtx)
+	Rule         string
+	Assumptions  []string
+	Workers      int                                            // 0 => 16
+	CaseTimeout  time.Duration                                  // watchdog per worker (whole shard); 0 => default
+	CaseDeadline time.Duration                                  // per case; 0 => 90 s quick / 10 min thorough
+	Floor        func(tier string, agg map[string]int64) string // coverage floor: non-empty => harness error
+	Post         func(d *driverState)                           // optional extra aggregation (race logs ...)
 }
 
 var checks = map[string]*Check{}
@@ -220,7 +227,39 @@ func workerMain(args []string) {
 			continue
 		}
 		fmt.Fprintf(f, "B %d\n", i)
-		res := runOneCase(ck, tier, seed, i, n, root)
+		done := make(chan CaseResult, 1)
+		go func() { done <- runOneCase(ck, tier, seed, i, n, root) }()
+		deadline := ck.CaseDeadline
+		if deadline == 0 {
+			deadline = 90 * time.Second
+			if tier == "thorough" {
+				deadline = 10 * time.Minute
+			}
+		}
+		var res CaseResult
+		select {
+		case res = <-done:
+		case <-time.After(deadline):
+			// the case is stuck. Structural judgement: a goroutine parked on the database's RWMutex means a
+			// lock was never released (a panic or an early return inside the library) => violation; anything
+			// else is inconclusive. Either way this worker cannot continue.
+			buf := make([]byte, 1<<20)
+			buf = buf[:runtime.Stack(buf, true)]
+			st := string(buf)
+			res = CaseResult{Case: i, FP: fmt.Sprintf("stuck-%d", i), Verdict: "inconclusive", Note: "case exceeded its deadline"}
+			if strings.Contains(st, "sync.(*RWMutex)") && strings.Contains(st, "xujiajun/nutsdb") {
+				res.Verdict = "violated"
+				res.Viol = []Violation{{Sig: ck.ID + "/hang/lock-never-released", Class: "hang",
+					Detail: "the case blocked for ever on the database lock (a transaction ended without releasing it, or two lock acquisitions deadlocked):\n" + firstN(st, 3000)}}
+				res.History = []string{"# stuck; rerun with VERIF_TRACE=1 VERIF_ONLY_CASE=" + strconv.Itoa(i)}
+			}
+			b, _ := json.Marshal(res)
+			fmt.Fprintf(f, "R %s\n", b)
+			fmt.Fprintf(f, "ABORTED\n")
+			f.Close()
+			os.RemoveAll(root)
+			os.Exit(3)
+		}
 		b, _ := json.Marshal(res)
 		fmt.Fprintf(f, "R %s\n", b)
 	}
@@ -369,6 +408,9 @@ func driverMain(prop, tier string) int {
 					}
 				case ln == "DONE":
 					done = true
+				case ln == "ABORTED":
+					done = true
+					d.harnessE = append(d.harnessE, fmt.Sprintf("worker %d gave up after a stuck case; the rest of its shard was not run", s))
 				}
 			}
 			f.Close()
